@@ -907,7 +907,30 @@ func (ip *Interp) builtin(name string, args []Value, site ssa.CallInstruction) V
 			}
 		}
 		if base.Spare {
-			undecided("append to a slice that shares its backing array with a longer one (aliasing is not modelled)")
+			// a view that is shorter than the list it was cut from: appending within the room that is left writes into
+			// that list's elements (Go keeps the backing array); beyond it the capacity is not known to the model
+			var more []Value
+			if len(args) > 1 {
+				switch m := args[1].(type) {
+				case *List:
+					more = m.Elems
+				case Nil:
+				default:
+					undecided("append of %s", Show(args[1]))
+				}
+			}
+			if base.Base == nil {
+				undecided("append to a slice that shares its backing array with a longer one (aliasing is not modelled)")
+			}
+			room := len(base.Base.Elems) - (base.Off + len(base.Elems))
+			if len(more) > room {
+				undecided("append to a re-sliced slice beyond the length of the slice it was cut from (its capacity is not modelled)")
+			}
+			for i, e := range more {
+				base.Base.Elems[base.Off+len(base.Elems)+i] = e
+			}
+			out := &List{Elems: append(append([]Value(nil), base.Elems...), more...), View: true, Base: base.Base, Off: base.Off, Spare: len(more) < room}
+			return out
 		}
 		out := &List{Elems: append([]Value(nil), base.Elems...), IsNil: base.IsNil}
 		if len(args) > 1 {
